@@ -21,7 +21,7 @@ RULE = ('valid statements (corpus + templates) with one token deleted / duplicat
 ASSUMPTIONS = ['the first token the grammar cannot accept = the token of the parser\'s first error() call',
                'rejections raised by a grammar action (no error() call, e.g. "Duplicate LIMIT clause") carry no location and are out of scope',
                'reproduced lines may differ from the source in leading/inner white space and comments']
-BUDGET = {'quick': (8, 80), 'thorough': (16, 500)}
+BUDGET = {'quick': (8, 240), 'thorough': (16, 1800)}
 
 
 def floors(tier):
